@@ -2,6 +2,7 @@
 C03 — resource sets behave as exact, canonical sets of addresses / AS numbers.
 Only property theorems and non-vacuity examples; lemmas are in Rpki/Proofs/Chain*.lean.
 -/
+import Rpki.Proofs.AsDerCodec
 import Rpki.Proofs.ChainPrefix
 import Rpki.Proofs.ChainOps
 namespace Rpki.C03
@@ -103,6 +104,33 @@ theorem toPrefixes_tiles (W start stop : Nat) (h1 : start ≤ stop) (h2 : stop <
   have hne : toPrefixes W (2 * W + 2) start stop ≠ [] := by
     intro e; rw [e] at t; simp only [Tiles] at t; omega
   exact tiles_mem W _ start stop hne t
+
+
+/-! ## the RFC 3779 AS resources extension in DER -/
+
+/-- **Decoding the extension.** Whatever octets `AsResources::take_from` accepts, the result is
+`inherit` or a canonical chain … -/
+theorem asExt_decode_canonical (b : List Nat) (hb : ∀ x ∈ b, x < 256) (cl : Claim) (h : AsDer.decodeExt b = some cl) :
+    cl = .inherit ∨ ∃ c, cl = .blocks c ∧ Canon AsDer.maxAs c := AsDer.decodeExt_sound b hb cl h
+
+/-- … denoting exactly the union of the listed ids and ranges (any order, overlaps, adjacency). -/
+theorem asBlocks_decode_den (content : List Nat) (hb : ∀ x ∈ content, x < 256) (c : List Blk)
+    (h : AsDer.decodeBlocks content = some c) :
+    ∃ bs, AsDer.blocksLoop content.length content = some bs ∧ ∀ x, mem c x ↔ ∃ b ∈ bs, b.lo ≤ x ∧ x ≤ b.hi :=
+  AsDer.decodeBlocks_den content hb c h
+
+/-- **Round trip.** The extension written for a canonical set, or for `inherit`, decodes to exactly
+that.  (The size hypothesis is the real encoder's domain: in the model length octets are unbounded
+naturals, so the statement also holds without it, but bcder's 0x84 form ends at 2^32 - 1.) -/
+theorem asExt_roundtrip (c : List Blk) (hc : Canon AsDer.maxAs c)
+    (_hsize : ((c.map AsDer.encodeBlock).flatten).length < 2 ^ 32) :
+    AsDer.decodeExt (AsDer.encodeExt (.blocks c)) = some (.blocks c) ∧
+    AsDer.decodeExt (AsDer.encodeExt .inherit) = some .inherit :=
+  ⟨AsDer.decodeExt_encodeExt_blocks c hc, AsDer.decodeExt_encodeExt_inherit⟩
+
+/-- a canonical chain is a fixed point of `from_iter` -/
+theorem fromIter_canon_id (M : Nat) (c : List Blk) (hc : Canon M c) : fromIter M c = c :=
+  AsDer.fromIter_canon_id M c hc
 
 
 /-! ## Non-vacuity -/
